@@ -386,6 +386,7 @@ func runC07(c *Ctx) {
 	}
 
 	runC07Backend(c, ea)
+	runC07Load(c, ea)
 	runC07Determinism(c, ea, roots, R)
 }
 
@@ -420,6 +421,41 @@ func reachableWithout(ix *Index, roots []*ssa.Function, cut map[*ssa.Function]bo
 }
 
 // runC07Backend: clone in, run one engine operation of the same name, clone out.
+// runC07Load: rebuilding a game from a state adopts the state as it is. The loader (the function
+// that stores its *GameState argument as the game's state) and everything it calls write only the
+// engine's own wiring, never a field of the state: a loader that "repairs" a value makes the
+// rebuilt game differ from the one that was serialised.
+func runC07Load(c *Ctx, ea *engineAnchors) {
+	p := c.P
+	ix := p.Index()
+	var loaders []*ssa.Function
+	for _, fn := range p.MethodsOf("pokerface", ea.gameImpl) {
+		for _, b := range fn.Blocks {
+			for _, in := range b.Instrs {
+				if st, ok := in.(*ssa.Store); ok && accessKey(st.Addr) == "pokerface."+ea.gameImpl+".gs" {
+					if prm, ok := st.Val.(*ssa.Parameter); ok && typeShort(prm.Type()) == "*pokerface.GameState" {
+						loaders = append(loaders, fn)
+					}
+				}
+			}
+		}
+	}
+	c.floor("load-is-identity", "functions that adopt a state", len(loaders), 1)
+	for _, ld := range loaders {
+		c.touch(fnKey(ld))
+		var bad []string
+		fi := ix.Info[ld]
+		for _, k := range sortedKeys(fi.TWrites) {
+			for _, pre := range []string{"pokerface.GameState.", "pokerface.Status.", "pokerface.Meta.", "pokerface.PlayerState.", "pokerface.BlindSetting.", "pokerface.Action.", "pokerface.CombinationInfo.", "pot.", "settlement."} {
+				if strings.HasPrefix(k, pre) {
+					bad = append(bad, "writes "+k+" of the state it is given")
+				}
+			}
+		}
+		c.check(len(bad) == 0, "load-is-identity", fnKey(ld), p.FnPos(ld), "adopts the state unchanged: only the engine's own wiring is written", "a rebuilt game differs from the serialised one", uniq(bad, 3)...)
+	}
+}
+
 func runC07Backend(c *Ctx, ea *engineAnchors) {
 	p := c.P
 	want := backendMethods(p)
